@@ -20,7 +20,7 @@ from typing import Any, Dict, List, Optional, Tuple
 KINDS = {"t": "table", "c": "column", "i": "index", "r": "ref", "e": "enum",
          "g": "group", "n": "sticky", "p": "project", "d": "db"}
 
-RENDERERS = ("default", "tag", "partial", "sub", "nodb", "err")
+RENDERERS = ("default", "tag", "partial", "sub", "nodb", "err", "late")
 
 
 class World:
